@@ -23,10 +23,30 @@ type corsCfg struct {
 	Exposed []string `json:"exposed"`
 	MaxAge  int      `json:"maxage"`
 	Cred    bool     `json:"cred"`
+	// Before: CORS options given earlier in the option list (the last one must win);
+	// ViaGroup: the earlier options are the group's, this one is given to Group.New.
+	Before   []corsCfg `json:"before,omitempty"`
+	ViaGroup bool      `json:"viagroup,omitempty"`
+	Table    int       `json:"table"` // 0 = plain table, 1 = table reached through a history, WithTrace
 }
 
 func (c corsCfg) String() string {
-	return fmt.Sprintf("WithCORS(origins=%v, allowHeaders=%v, exposed=%v, maxAge=%d, credentials=%v)", c.Origins, c.Headers, c.Exposed, c.MaxAge, c.Cred)
+	s := fmt.Sprintf("WithCORS(origins=%v, allowHeaders=%v, exposed=%v, maxAge=%d, credentials=%v)", c.Origins, c.Headers, c.Exposed, c.MaxAge, c.Cred)
+	for i := len(c.Before) - 1; i >= 0; i-- {
+		how := "earlier option"
+		if c.ViaGroup {
+			how = "group option"
+		}
+		s = fmt.Sprintf("[%s: %s] then %s", how, c.Before[i].String(), s)
+	}
+	if c.Table == 1 {
+		s += " table=history+trace"
+	}
+	return s
+}
+
+func (c corsCfg) option() mux.Option {
+	return mux.WithCORS(c.Origins, c.Headers, c.Exposed, c.MaxAge, c.Cred)
 }
 
 func corsConfigs() []corsCfg {
@@ -36,13 +56,40 @@ func corsConfigs() []corsCfg {
 			for _, e := range [][]string{nil, {"X-E"}} {
 				for _, m := range []int{0, -1, 600} {
 					for _, c := range []bool{false, true} {
-						out = append(out, corsCfg{o, h, e, m, c})
+						out = append(out, corsCfg{Origins: o, Headers: h, Exposed: e, MaxAge: m, Cred: c})
 					}
 				}
 			}
 		}
 	}
 	out = append(out, corsCfg{Origins: []string{"https://a"}, MaxAge: -2})
+	// an allow-list whose byte order differs from the order of its lower-cased form
+	for _, o := range [][]string{{"*"}, {"https://a", "https://b"}} {
+		for _, cr := range []bool{false, true} {
+			if !(cr && o[0] == "*") {
+				out = append(out, corsCfg{Origins: o, Headers: []string{"Content-Type", "X-CSRF-Token", "X-Client-Id"}, Exposed: []string{"X-E", "X-F"}, MaxAge: 600, Cred: cr})
+			}
+		}
+	}
+	// composed options: the last CORS option wins
+	allow := corsCfg{Origins: []string{"*"}, Headers: []string{"*"}, MaxAge: 3600}
+	listA := corsCfg{Origins: []string{"https://a"}, Headers: []string{"Content-Type"}, Cred: true}
+	deny := corsCfg{}
+	for _, via := range []bool{false, true} {
+		for _, pair := range [][2]corsCfg{{allow, deny}, {deny, allow}, {allow, listA}, {listA, deny}, {listA, allow}} {
+			c := pair[1]
+			c.Before = []corsCfg{pair[0]}
+			c.ViaGroup = via
+			out = append(out, c)
+		}
+	}
+	// the same decision table on a route table that was reached through a history, with WithTrace
+	n := len(out)
+	for i := 0; i < n; i += 7 {
+		c := out[i]
+		c.Table = 1
+		out = append(out, c)
+	}
 	return out
 }
 
@@ -65,7 +112,7 @@ func (q corsReq) req() hv.Req {
 	return hv.Req{Method: q.Method, Path: q.Path, Header: h}
 }
 
-func corsRequests(hostile bool) []corsReq {
+func corsRequests(hostile bool, c corsCfg) []corsReq {
 	var out []corsReq
 	type org struct {
 		v   string
@@ -75,6 +122,39 @@ func corsRequests(hostile bool) []corsReq {
 	acrhs := []org{{"", false}, {"Content-Type", true}, {"content-type", true}, {"CONTENT-TYPE", true}, {" content-type , x-tok ", true}, {"X-Bad", true}, {"content-type,x-bad", true}}
 	if hostile {
 		acrhs = append(acrhs, org{",", true}, org{"", true}, org{"\xff", true})
+	}
+	// derived from the configured allow-list: every header alone in three spellings, all together,
+	// and fragments (a proper prefix, an inner piece, a piece spanning two names of the joined list)
+	seenH := map[string]bool{}
+	for _, a := range acrhs {
+		seenH[a.v] = true
+	}
+	addH := func(v string) {
+		if v != "" && !seenH[v] {
+			seenH[v] = true
+			acrhs = append(acrhs, org{v, true})
+		}
+	}
+	var named []string
+	for _, h := range c.Headers {
+		if h != "*" {
+			named = append(named, h)
+			addH(h)
+			addH(strings.ToLower(h))
+			addH(strings.ToUpper(h))
+			addH(h[:len(h)-1])
+			addH(h[1:])
+			if len(h) > 4 {
+				addH(h[2 : len(h)-2])
+			}
+		}
+	}
+	if len(named) > 1 {
+		addH(strings.ToLower(strings.Join(named, ", ")))
+		j := strings.Join(named, ",")
+		k := len(named[0])
+		addH(j[k-1 : k+2]) // e.g. "e,X": spans two names
+		addH(named[len(named)-1] + "," + named[0])
 	}
 	for _, m := range []string{"GET", "HEAD", "POST", "PUT", "OPTIONS", "TRACE"} {
 		for _, p := range []string{"/r", "/w", "/none", "*"} {
@@ -130,9 +210,38 @@ type corsItem struct {
 
 func corsRouter(c corsCfg) (r *Router, pv any, bad bool) {
 	pv, bad = Guard(func() {
-		r = NewRouter(RouterCfg{}, mux.WithCORS(c.Origins, c.Headers, c.Exposed, c.MaxAge, c.Cred))
+		var opts []mux.Option
+		if c.Table == 1 {
+			opts = append(opts, mux.WithTrace(hv.TraceH()))
+		}
+		if c.ViaGroup {
+			var gopts []mux.Option
+			for _, b := range c.Before {
+				gopts = append(gopts, b.option())
+			}
+			r = newGroup(append(gopts, opts...)...).New("r", nil, c.option())
+		} else {
+			for _, b := range c.Before {
+				opts = append(opts, b.option())
+			}
+			r = NewRouter(RouterCfg{}, append(opts, c.option())...)
+		}
+		if c.Table == 0 {
+			r.Handle("/r", hv.Route("hr"), nil, "GET")
+			r.Handle("/w", hv.Route("hw"), nil, "GET", "POST")
+			return
+		}
+		// same live table, reached the long way round
 		r.Handle("/r", hv.Route("hr"), nil, "GET")
-		r.Handle("/w", hv.Route("hw"), nil, "GET", "POST")
+		r.Handle("/r", hv.Route("hr2"), nil, "POST")
+		r.Handle("/w", hv.Route("hw"), nil, "GET")
+		r.Handle("/wx", hv.Route("hwx"), nil, "PUT") // splits the node of /w
+		r.Handle("/w", hv.Route("hw"), nil, "POST")
+		r.Remove("/r", "POST")
+		r.Remove("/r", "DELETE") // never registered
+		r.Remove("/wx")
+		r.Handle("/none", hv.Route("hn"), nil, "GET")
+		r.Remove("/none")
 	})
 	return
 }
@@ -169,11 +278,11 @@ func corsJob(raw json.RawMessage) (any, error) {
 		rep(it.Prop+".config", "valid-config-rejected", corsReq{}, fmt.Sprintf("panic: %v", pv), "router created")
 		return out, nil
 	}
-	t := ref.NewTable(nil, false)
+	t := ref.NewTable(nil, c.Table == 1)
 	t.Handle("/r", "hr", nil, "GET")
 	t.Handle("/w", "hw", nil, "GET", "POST")
 	anyHeaders := contains(c.Headers, "*")
-	for _, q := range corsRequests(it.Prop == "C05") {
+	for _, q := range corsRequests(it.Prop == "C05", c) {
 		o := hv.Serve(r, q.req())
 		out.Evals++
 		if o.Paniced {
